@@ -4,5 +4,9 @@ package bbolt
 
 // fdatasync flushes written data to a file descriptor.
 func fdatasync(db *DB) error {
+	if err := verifBefore(db, "fdatasync", 0, nil, 0); err != nil {
+		return err
+	}
+	defer verifAfter(db, "fdatasync", 0, nil, 0, nil)
 	return db.file.Sync()
 }
